@@ -171,7 +171,7 @@ class Gen:
         small on purpose, so that its keys recur across the runs of a batch in different orders."""
         return {"fam": dfam, "role": "baseline", "mid": mid, "tz": "America/Chicago", "entry": "series", "norm": 1}
 
-    def _reporting(self, base, span=None, obs=None, foreign_tz=False):
+    def _reporting(self, base, span=None, obs=None, foreign_tz=False, tgap=None):
         r = self.rng
         rec = {k: v for k, v in base.items() if k not in ("defect", "role")}
         rec["role"] = "reporting"
@@ -191,6 +191,8 @@ class Gen:
         rec["obs"] = obs or _wchoice(r, [("present", 5), ("scaled", 0.5), ("shuffled", 0.5), ("partnan", 1.5),
                                          ("allnan", 1), ("absent", 1.5)])
         rec["tgap"] = 1 if r.random() < 0.2 else 0
+        if tgap is not None:
+            rec["tgap"] = tgap
         if base.get("src") != "sample":
             rec["entry"] = r.choice(["series", "frame"])
             if dfam in ("daily", "hourly") and r.random() < 0.15:
@@ -355,7 +357,7 @@ class Gen:
                 self.crash()
             # a restored object meets a short window first and a longer one afterwards, twice over
             m1 = self.load(doc)
-            d_s = self.make_data(self._reporting(base0, obs="present", span="day" if long_span != "partial" else "partial"))
+            d_s = self.make_data(self._reporting(base0, obs="present", span="day" if long_span != "partial" else "partial", tgap=0))
             d_l = self.make_data(self._reporting(base0, obs="present", span=long_span))
             self.predict(m1, d_s, ignore=True)
             self.predict(m1, d_l, ignore=True)
@@ -370,7 +372,7 @@ class Gen:
             self.emit("INSPECT", m=m2)
         elif mode == "C02":
             # spans of growing length over the same weeks: one day, the month around it, then whatever was drawn
-            d1 = self.make_data(self._reporting(base0, span="day", obs="present"))
+            d1 = self.make_data(self._reporting(base0, span="day", obs="present", tgap=0))
             dm = self.make_data(self._reporting(base0, span="month" if base0.get("src") != "sample" or base0[
                 "fam"] != "billing" else "partial", obs="present"))
             self.predict(m0, d1, ignore=True)
